@@ -120,6 +120,14 @@ def sensor(freq, active):
 
 def make_em(name, sens, lay):
     from smrt.core.plugin import import_class
+    if name.startswith("derived_"):
+        # the public factories: a theory built on another effective-permittivity (mixing) formula, e.g. derived_SCETK21:polder_van_santen
+        import importlib
+        fac, formula = name.split(":")
+        module = {"derived_IBA": "iba", "derived_SCETK21": "sce_torquato21", "derived_SymSCETK21": "symsce_torquato21",
+                  "derived_SCETK21_ShortRange": "sce_torquato21_shortrange", "derived_SymSCETK21_ShortRange": "symsce_torquato21_shortrange"}[fac]
+        from smrt.permittivity import generic_mixing_formula as g
+        return getattr(importlib.import_module("smrt.emmodel." + module), fac)(getattr(g, formula))(sens, lay)
     return import_class("emmodel", name)(sens, lay)
 
 
@@ -442,7 +450,21 @@ ALL_PAIRS = ([("rayleigh", m) for m in RAYLEIGH_MS] + [("sft_rayleigh", m) for m
              + [("dmrt_qca_shortrange", "sticky_hard_spheres"), ("dmrt_qcacp_shortrange", "sticky_hard_spheres")]
              + [(n, m) for n in IBAS for m in IBA_MS[:-1] + ["gaussian_random_field"]]
              + [(n, m) for n, (_, mss) in SCES.items() for m in mss[:-1 if mss[-1] == "homogeneous" else None]]
-             + [("sce_torquato21", "gaussian_random_field"), ("nonscattering", "exponential"), ("prescribed_kskaeps", "homogeneous")])
+             + [("sce_torquato21", "gaussian_random_field"), ("nonscattering", "exponential"), ("prescribed_kskaeps", "homogeneous")]
+             # the same theories built by their public factories on the other shipped two-phase mixing formula
+             + [("derived_IBA:maxwell_garnett_for_spheres", "exponential"), ("derived_SCETK21:polder_van_santen", "exponential"),
+                ("derived_SymSCETK21:maxwell_garnett_for_spheres", "exponential"), ("derived_SCETK21_ShortRange:polder_van_santen", "exponential"),
+                ("derived_SymSCETK21_ShortRange:maxwell_garnett_for_spheres", "exponential")])
+
+# dense, scattering-dominated media (fractional volume above one half: the theories work on the phase-inverted medium)
+DENSE_CASES = [
+    dict(emmodel="dmrt_qcacp_shortrange", ms="sticky_hard_spheres", ms_params=dict(radius=6e-4, stickiness=0.5), density=550.0,
+         temperature=205.0, frequency=10e9, active=False, mu_i=[0.3, 0.6], dirs=[[0.3, 0.6]]),
+    dict(emmodel="dmrt_qcacp_shortrange", ms="sticky_hard_spheres", ms_params=dict(radius=3.16e-4, stickiness=0.5), density=550.0,
+         temperature=205.0, frequency=19e9, active=False, mu_i=[0.3, 0.6], dirs=[[0.3, 0.6]]),
+    dict(emmodel="dmrt_qcacp_shortrange", ms="sticky_hard_spheres", ms_params=dict(radius=4e-4, stickiness=0.5), density=650.0,
+         temperature=220.0, frequency=13e9, active=True, mu_i=[0.3, 0.6], dirs=[[0.3, 0.6]]),
+]
 
 
 def build_case(inp):
@@ -594,9 +616,10 @@ def oracle(ctx, hints, effort):
     rng = ctx.np
     findings, evals = {}, 0
     reps = 1 if effort == "routine" else 12
-    for name, ms in ALL_PAIRS:
-        for _ in range(reps):
-            inp = gen_case(rng, name, ms)
+    for name, ms in [(c_["emmodel"], c_) for c_ in DENSE_CASES] + list(ALL_PAIRS):
+        for _ in range(reps if not isinstance(ms, dict) else 1):
+            inp = gen_case(rng, name, ms) if not isinstance(ms, dict) else ms
+            ms = inp["ms"]
             evals += 1
             try:
                 bad = check_case(inp)
